@@ -6,6 +6,7 @@ pub mod run;
 pub mod target;
 pub mod zoo;
 pub mod geom;
+pub mod adapters;
 pub mod rawmodel;
 
 pub mod fonts {
